@@ -15,6 +15,9 @@ ParentDef == [k \in KeysDef |->
       [] k = "other/x" -> "other"]
 IsDirDef == [k \in KeysDef |-> k \in {"data", "data/sub", "data/sub/deep", "other", "void", "top", "top/in", "top/in/s", "top/e"}]
 LazyDef == {"data", "other", "void", "top/in", "top/e"}
+\* the changed copy: data/sub/deep/qux has other bytes, data/sub/new is added (so the directory object `data` differs)
+ChangedDef == {"data", "data/sub/deep/qux", "data/sub/new"}
+ChangedLazyDef == {"data"}
 FiltersDef == {"all", "foo", "data", "sub", "other", "top"}
 FilterKeysDef == [f \in FiltersDef |->
     CASE f = "all" -> KeysDef
